@@ -40,7 +40,7 @@ DEFAULTS: Dict[str, Any] = dict(
     max_depth=3, ops_per_step=(2, 5), big_corr=False, autograd=False, bwd_annotation=True, step_gap=(0, 1, 1, 7),
     pre_ops=1, post_ops=1, first_step=None, file_order="time", p_plain_rt=0.08, kernel_durs=(0, 1, 5, 20, 60),
     launch_lat=(0, 0, 1, 3, 10), queue_lat=(0, 0, 1, 5, 40), device_pid=0, repeat_names=False, annotation_nest=False,
-    p_leaf_children=(0, 3), ops_pool=None, p_unlaunched=0.0, sync_straddle=False, source_counters=False, outer_frame=False, corr_zero=False,
+    p_leaf_children=(0, 3), ops_pool=None, p_unlaunched=0.0, sync_straddle=False, source_counters=False, outer_frame=False, corr_zero=False, small_corr=False, tid_base=None,
 )
 
 
@@ -58,6 +58,9 @@ class Sim:
         self.ev: List[Dict[str, Any]] = []
         # CUPTI correlation ids are unsigned 32-bit counters: big ids reach beyond 2^31
         self.corr = self.r.choice([self.r.randint(2 ** 20, 2 ** 30), 2 ** 31 - self.r.randint(1, 40), self.r.randint(2 ** 31, 2 ** 32 - 5000)]) if p["big_corr"] else self.r.randint(1, 50)
+        if p["small_corr"] and not p["big_corr"]:
+            self.corr = 0
+        self.ext = 0
         self.host_pid = 4000 + self.rank
         self.streams = self.r.sample(STREAM_IDS, p["n_streams"])
         self.free_at = {s: 0 for s in self.streams}
@@ -70,7 +73,9 @@ class Sim:
         self.n_event_ids = 0
         self.truth: Dict[str, List[Any]] = {"stream_sync": [], "ctx_sync": [], "event_sync": [], "stream_wait": [], "launch": []}
         self.ops_pool = p["ops_pool"] or (OPS[:3] if p["repeat_names"] else OPS)
-        self.helper = {"t": 0, "tid": self.host_pid + 7, "streams": self.streams}
+        # Linux thread ids go up to 2^22; Kineto records them as they are (the call-stack roots are -tid)
+        self.tid0 = p["tid_base"] + 16 * self.rank if p["tid_base"] else self.host_pid
+        self.helper = {"t": 0, "tid": self.tid0 + 7, "streams": self.streams}
         self.used_zero = False
 
     # ------------------------------------------------------------------ helpers
@@ -84,7 +89,15 @@ class Sim:
         self.ev.append(e)
         return e
 
-    def newcorr(self) -> int:
+    def newcorr(self, external: bool = False) -> int:
+        if self.p["small_corr"]:
+            # a fresh process: correlation ids count 1, 2, 3 ... while the row ids of a trace with many host operators grow
+            # much faster (all ids < 128 with linked rows >= 128: the narrowest integer type of the two columns differs)
+            if external:
+                self.ext += 1
+                return self.ext
+            self.corr += 1
+            return self.corr
         self.corr += self.r.choice([1, 1, 2, 5])
         return self.corr
 
@@ -220,14 +233,14 @@ class Sim:
             if p["avoid_k1"]:                       # keep a zero-duration op clear of its neighbours' endpoints
                 th["t"] += 1
                 ts = th["t"]
-            self.X("cpu_op", self.r.choice(names), self.host_pid, th["tid"], ts, 0, {"External id": self.newcorr()})
+            self.X("cpu_op", self.r.choice(names), self.host_pid, th["tid"], ts, 0, {"External id": self.newcorr(True)})
             if p["avoid_k1"]:
                 th["t"] += 1
             yield
             return
         cat = "user_annotation" if (p["annotation_nest"] and self.r.random() < 0.15) else "cpu_op"
         nm = self.r.choice(names) if cat == "cpu_op" else self.r.choice(["my_region", "fwd_block"])
-        e = self.X(cat, nm, self.host_pid, th["tid"], ts, 0, {"External id": self.newcorr()} if cat == "cpu_op" else {})
+        e = self.X(cat, nm, self.host_pid, th["tid"], ts, 0, {"External id": self.newcorr(True)} if cat == "cpu_op" else {})
         th["t"] += self.d(0, 2)
         for _ in range(self.r.randint(*p["p_leaf_children"])):
             if depth < p["max_depth"] and self.r.random() < 0.4:
@@ -301,7 +314,7 @@ class Sim:
         t0 = p["base"] + self.r.randint(0, 50)
         ths = []
         for i in range(p["n_threads"]):
-            th = {"t": t0 + i * self.r.randint(0, 5), "tid": self.host_pid + i,
+            th = {"t": t0 + i * self.r.randint(0, 5), "tid": self.tid0 + i,
                   "streams": self.streams if i == 0 else self.r.sample(self.streams, max(1, len(self.streams) - 1))}
             if i == 0:
                 prog = self.main_prog(th)
@@ -412,6 +425,8 @@ def random_params(rnd: random.Random, tier: str, **over: Any) -> Dict[str, Any]:
         file_order=rnd.choice(["time", "time", "grouped", "shuffled"]), repeat_names=rnd.random() < 0.3,
         annotation_nest=rnd.random() < 0.3, p_unlaunched=rnd.choice([0.0, 0.0, 0.1]), sync_straddle=rnd.random() < 0.3, source_counters=rnd.random() < 0.25, outer_frame=rnd.random() < 0.2, corr_zero=rnd.random() < 0.3,
     )
+    p["small_corr"] = rnd.random() < 0.35 and not p["big_corr"]
+    p["tid_base"] = rnd.choice([None, None, None, 33000, 40000, 140737, 2 ** 22 - 200])
     if p["autograd"]:
         p["n_threads"] = max(2, p["n_threads"])
     if tier == "thorough" and rnd.random() < 0.15:
